@@ -24,3 +24,40 @@ func WithRecActions(g *Grammar) *Grammar {
 	}
 	return out
 }
+
+// WithActions assigns actions by mode: "explicit" ($i everywhere), "token" ($Ti on terminals), "none" (no actions:
+// defaults), "mixed" (explicit on even alternatives, none on odd ones). Returns the grammar and whether the header
+// must import the token package.
+func WithActions(g *Grammar, mode string) (*Grammar, bool) {
+	out := &Grammar{Lex: g.Lex, Header: g.Header}
+	heads := map[string]bool{}
+	for _, a := range g.Alts {
+		heads[a.Head] = true
+	}
+	tokImp := false
+	for i, a := range g.Alts {
+		b := a
+		explicit := mode == "explicit" || mode == "token" || (mode == "mixed" && i%2 == 0)
+		if explicit {
+			args := []string{"$Context", fmt.Sprint(i)}
+			k := 0
+			if a.Err {
+				args = append(args, "$0")
+				k = 1
+			}
+			for j, s := range a.Body {
+				if mode == "token" && (s.Str || !heads[s.Name]) {
+					args = append(args, fmt.Sprintf("$T%d", j+k))
+					tokImp = true
+				} else {
+					args = append(args, fmt.Sprintf("$%d", j+k))
+				}
+			}
+			b.Action = "rt.A(" + strings.Join(args, ", ") + ")"
+		} else {
+			b.Action = ""
+		}
+		out.Alts = append(out.Alts, b)
+	}
+	return out, tokImp
+}
